@@ -1,10 +1,12 @@
 From Coq Require Import Extraction ExtrOcamlBasic.
 From PV Require Import Lib.ExtractBase Lib.AmmoBytes Lib.AmmoDecimal Lib.AmmoLines Model.AmmoCommon
-  Model.AmmoUri Model.AmmoUripost Model.AmmoRaw Model.AmmoJson Model.AmmoSched.
+  Model.AmmoUri Model.AmmoUripost Model.AmmoRaw Model.AmmoJson Model.AmmoSched Model.AmmoConfigInput Model.AmmoCfgHeaders.
 Extraction Language OCaml.
 Extraction "extracted/C07_model.ml" xb_types max_token cfg0 build cycle_take
   uri_decode render_uri uri_entries wf_uitem
   uripost_decode render_uripost uripost_entries wf_pitem
   raw_decode render_raw raw_entries wf_ritem
   json_stream_decode json_array_decode entity_entry
-  sched_obs.
+  sched_obs
+  config_headers line_run_cfg raw_run_cfg raw_enrich json_stream_decode_cfg json_array_decode_cfg
+  build_m spec_request spec_raw entity_mentry_add.
